@@ -1,9 +1,9 @@
 /-
   C24 — the capacity limit is never exceeded by committed payloads.
 
-  Subject: the `Memvid` handle WITH the repair of `/verif/fixes/C24.diff` (`stepR`, MvModel/Capacity.lean:
-  the shared Core model plus the exact capacity check that counts the bytes pending in the WAL, the
-  stored size of every chunk and the position `data_end` where the next commit really appends).
+  Subject: the `Memvid` handle as the shared Core model describes it (`step`), which since the repair ed05539
+  (`/verif/fixes/C24.diff`) contains the exact capacity check `Mem.overCap`: it counts the bytes pending in the
+  WAL, the stored size of every chunk and the position `data_end` where the next commit really appends.
 
   Results
   -------
@@ -11,7 +11,7 @@
                                          WAL growth moves the payload region without a capacity test
                                          (finding, not repaired).  C24_crash_replay_exceeds and
                                          C24_rejected_embedded_put_changes_handle are the two other findings.
-    C24_unrepaired_counterexample        the defect that IS repaired, on the shared model of the current code:
+    C24_unrepaired_counterexample        the defect that IS repaired, on the handle before ed05539 (`stepU`, Capacity.lean):
                                          two pending 2000-byte puts under a 3000-byte grant, commit → 4000.
     C24_capacity_never_exceeded_partial  every history without WAL growth / crash with payloads pending /
                                          vacuum / doctor / under-granting ticket keeps
@@ -188,22 +188,27 @@ theorem afterAppend_capnum (m : Mem) (t : Trace) (hws : t.ws = m.walSize) (h : C
 
 /-! ## put / update / delete -/
 
+/-- the handle after an accepted put on `m0` (the handle at the capacity tests): the exact test passed
+    and the WAL appends, the automatic checkpoint and the card bookkeeping ran -/
+def Accepted (r m0 : Mem) (a : PutArgs) (sup reuse : Option Nat) (t : Trace) : Prop :=
+  m0.overCap a reuse = false ∧ ∃ k, r = ((m0.appendPut a sup reuse).afterAppend t).addCards a.nc k
+
 theorem putTail_shape (m : Mem) (a : PutArgs) (sup reuse : Option Nat) (t : Trace) :
     ((m.putTail a sup reuse t).2.isAck = false ∧ (m.putTail a sup reuse t).1 = m) ∨
-    ((m.putTail a sup reuse t).2.isAck = true ∧
-      (m.putTail a sup reuse t).1 = ((m.appendPut a sup reuse).afterAppend t).addCards a.nc (m.seq + 1)) := by
+    ((m.putTail a sup reuse t).2.isAck = true ∧ Accepted (m.putTail a sup reuse t).1 m a sup reuse t) := by
   unfold Mem.putTail
-  split
-  · left; exact ⟨rfl, rfl⟩
-  · right; exact ⟨rfl, rfl⟩
+  by_cases h1 : m.base + m.payloadEnd + a.plen > m.capacityLimit
+  · rw [if_pos h1]; left; exact ⟨rfl, rfl⟩
+  · rw [if_neg h1]
+    by_cases h2 : m.overCap a reuse = true
+    · rw [if_pos h2]; left; exact ⟨rfl, rfl⟩
+    · rw [if_neg h2]; right; exact ⟨rfl, by simpa using h2, _, rfl⟩
 
-/-- `put_internal` of the current code: either an error that leaves everything the capacity argument
-    looks at alone, or the appends on the handle `prePut` -/
+/-- `put_internal`: either an error that leaves everything the capacity argument looks at alone, or an
+    accepted put on the handle `prePut` -/
 theorem putCore_shape (m : Mem) (a : PutArgs) (sup reuse : Option Nat) (t : Trace) :
     ((m.putCore a sup reuse t).2.isAck = false ∧ Light (m.putCore a sup reuse t).1 m) ∨
-    ((m.putCore a sup reuse t).2.isAck = true ∧
-      (m.putCore a sup reuse t).1 =
-        (((m.prePut a).appendPut a sup reuse).afterAppend t).addCards a.nc ((m.prePut a).seq + 1)) := by
+    ((m.putCore a sup reuse t).2.isAck = true ∧ Accepted (m.putCore a sup reuse t).1 (m.prePut a) a sup reuse t) := by
   cases hd : embDims a with
   | nil =>
     have hp : m.prePut a = m := by simp only [Mem.prePut, hd]
@@ -246,37 +251,29 @@ theorem accepted_capnum (m0 : Mem) (a : PutArgs) (sup reuse : Option Nat) (t : T
         rw [hap] at hf'
         have := h.pend (by simpa using hf')
         omega
-      · unfold Mem.overCap Mem.projectedEnd Mem.pendingBytes at hchk
-        rw [hap] at hchk
+      · have hdef : m0.overCap a reuse = (appendsPayload a reuse &&
+            decide (m0.base + max m0.payloadEnd m0.dataEnd + pendingPayloadBytes m0.pending + incomingBytes a reuse > m0.capacityLimit)) := rfl
+        rw [hdef, hap] at hchk
         simp at hchk
         omega
     · exact h.within
     · exact fun _ => rfl
   exact (addCards_light _ _ _).capnum (afterAppend_capnum _ t hws h1)
 
-theorem putCoreR_capnum (m : Mem) (a : PutArgs) (sup reuse : Option Nat) (t : Trace) (h : CapNum m)
-    (hws : t.ws = m.walSize) : CapNum (m.putCoreR a sup reuse t).1 := by
-  simp only [Mem.putCoreR]
-  rcases putCore_shape m a sup reuse t with ⟨hn, hl⟩ | ⟨hy, he⟩
-  · simp only [hn, Bool.not_false, if_true]
-    exact hl.capnum h
-  · simp only [hy, Bool.not_true, Bool.false_eq_true, if_false]
-    split
-    · exact (prePut_light m a).capnum h
-    · rename_i hchk
-      rw [he]
-      have hl := prePut_light m a
-      exact accepted_capnum (m.prePut a) a sup reuse t _ (hl.capnum h) (by rw [hl.keeps.ws]; exact hws)
-        (by rw [hl.overCap]; simpa using hchk)
+theorem putCore_capnum (m : Mem) (a : PutArgs) (sup reuse : Option Nat) (t : Trace) (h : CapNum m)
+    (hws : t.ws = m.walSize) : CapNum (m.putCore a sup reuse t).1 := by
+  rcases putCore_shape m a sup reuse t with ⟨_, hl⟩ | ⟨_, hchk, k, he⟩
+  · exact hl.capnum h
+  · rw [he]
+    have hl := prePut_light m a
+    exact accepted_capnum (m.prePut a) a sup reuse t k (hl.capnum h) (by rw [hl.keeps.ws]; exact hws) hchk
 
-/-- `update_frame` of the current code, in the same two shapes -/
+/-- `update_frame`, in the same two shapes -/
 theorem update_shape (m : Mem) (id : Nat) (u : UpdArgs) (t : Trace) :
     ((m.update id u t).2.isAck = false ∧ Light (m.update id u t).1 m) ∨
     (∃ old, m.frames[id]? = some old ∧ (m.update id u t).2.isAck = true ∧
-      (m.update id u t).1 =
-        (((m.loadVec.prePut (inheritArgs old u (m.carriedEmb id u.emb))).appendPut
-            (inheritArgs old u (m.carriedEmb id u.emb)) (some id) (updReuse u id)).afterAppend t).addCards
-          (inheritArgs old u (m.carriedEmb id u.emb)).nc ((m.loadVec.prePut (inheritArgs old u (m.carriedEmb id u.emb))).seq + 1)) := by
+      Accepted (m.update id u t).1 (m.loadVec.prePut (inheritArgs old u (m.carriedEmb id u.emb)))
+        (inheritArgs old u (m.carriedEmb id u.emb)) (some id) (updReuse u id) t) := by
   unfold Mem.update
   split
   · left; exact ⟨rfl, Light.refl m⟩
@@ -292,24 +289,14 @@ theorem update_shape (m : Mem) (id : Nat) (u : UpdArgs) (t : Trace) :
           · left; exact ⟨h1, h2.trans (loadVec_light m)⟩
           · right; exact ⟨old, hold, h1, h2⟩
 
-theorem updateR_capnum (m : Mem) (id : Nat) (u : UpdArgs) (t : Trace) (h : CapNum m) (hws : t.ws = m.walSize) :
-    CapNum (m.updateR id u t).1 := by
-  simp only [Mem.updateR]
-  rcases update_shape m id u t with ⟨hn, hl⟩ | ⟨old, hold, hy, he⟩
-  · simp only [hn, Bool.not_false, if_true]
-    exact hl.capnum h
-  · simp only [hy, Bool.not_true, Bool.false_eq_true, if_false, hold]
+theorem update_capnum (m : Mem) (id : Nat) (u : UpdArgs) (t : Trace) (h : CapNum m) (hws : t.ws = m.walSize) :
+    CapNum (m.update id u t).1 := by
+  rcases update_shape m id u t with ⟨_, hl⟩ | ⟨old, _, _, hchk, k, he⟩
+  · exact hl.capnum h
+  · rw [he]
     have hl : Light (m.loadVec.prePut (inheritArgs old u (m.carriedEmb id u.emb))) m :=
       (prePut_light _ _).trans (loadVec_light m)
-    by_cases hov : m.loadVec.overCap (inheritArgs old u (m.carriedEmb id u.emb)) (updReuse u id) = true
-    · simp only [hov, if_true]
-      exact hl.capnum h
-    · have hov' : m.loadVec.overCap (inheritArgs old u (m.carriedEmb id u.emb)) (updReuse u id) = false := by
-        simpa using hov
-      simp only [hov', Bool.false_eq_true, if_false]
-      rw [he]
-      exact accepted_capnum _ _ (some id) _ t _ (hl.capnum h) (by rw [hl.keeps.ws]; exact hws)
-        (by rw [(prePut_light _ _).overCap]; exact hov')
+    exact accepted_capnum _ _ (some id) _ t k (hl.capnum h) (by rw [hl.keeps.ws]; exact hws) hchk
 
 theorem delete_capnum (m : Mem) (id : Nat) (t : Trace) (h : CapNum m) (hws : t.ws = m.walSize) :
     CapNum (m.delete id t).1 := by
@@ -334,6 +321,12 @@ theorem delete_capnum (m : Mem) (id : Nat) (t : Trace) (h : CapNum m) (hws : t.w
 
 /-! ## The other operations -/
 
+theorem foldEmbs_keeps (m : Mem) (embs : List VecEnt) : Keeps (m.foldEmbs embs) m := by
+  unfold Mem.foldEmbs
+  split
+  · exact Keeps.refl m
+  · exact ⟨rfl, rfl, rfl, rfl⟩
+
 theorem commitSkip_capnum (m : Mem) (h : CapNum m) : CapNum m.commitSkipIndexes.1 := by
   unfold Mem.commitSkipIndexes
   split
@@ -342,10 +335,10 @@ theorem commitSkip_capnum (m : Mem) (h : CapNum m) : CapNum m.commitSkipIndexes.
     · exact (⟨⟨rfl, rfl, rfl, rfl⟩, rfl, rfl, rfl, rfl, id⟩ : Light { m with tantivyDirty := false } m).capnum h
     · rename_i m1 δ h1
       obtain ⟨p, w, ws, tc, _, _⟩ := applyRecords_cap m m.pending false m1 δ h1 h.within
-      exact capnum_after_apply m m1 _ h p w ws tc ⟨rfl, rfl, rfl, rfl⟩ rfl
+      exact capnum_after_apply m m1 _ h p w ws tc
+        (Keeps.trans (b := m1.foldEmbs δ.embs) ⟨rfl, rfl, rfl, rfl⟩ (foldEmbs_keeps ..)) rfl
 
 theorem finalize_capnum (m : Mem) (ft : Nat) (h : CapNum m) : CapNum (m.finalizeIndexes ft).1 := by
-  show CapNum (m.rebuildIndexes [] [] ft)
   have hk := rebuildIndexes_keeps m [] [] ft
   obtain ⟨l, ol, pl⟩ := (rebuildIndexes_skel m [] [] ft).pending
   have hde := rebuildIndexes_dataEnd m [] [] ft
@@ -353,14 +346,17 @@ theorem finalize_capnum (m : Mem) (ft : Nat) (h : CapNum m) : CapNum (m.finalize
     rw [pl, hasFresh_append, hasFresh_onlyLex l ol, Bool.or_false]
   have hfb : pendingPayloadBytes (m.rebuildIndexes [] [] ft).pending = pendingPayloadBytes m.pending := by
     rw [pl, freshBytes_append, freshBytes_onlyLex l ol]; omega
-  constructor
-  · unfold Mem.absEnd; rw [hk.base, hk.pe, hk.cap]; exact h.bound
-  · rw [hfr, hfb, hk.base, hk.pe, hk.cap]
-    intro hf
-    have := h.pend hf
-    rcases hde with hde | hde <;> rw [hde] <;> omega
-  · rw [hk.frames, hk.pe]; exact h.within
-  · rw [hfr, rebuildIndexes_dirty]; exact h.dirty
+  have hR : CapNum (m.rebuildIndexes [] [] ft) := by
+    constructor
+    · unfold Mem.absEnd; rw [hk.base, hk.pe, hk.cap]; exact h.bound
+    · rw [hfr, hfb, hk.base, hk.pe, hk.cap]
+      intro hf
+      have := h.pend hf
+      rcases hde with hde | hde <;> rw [hde] <;> omega
+    · rw [hk.frames, hk.pe]; exact h.within
+    · rw [hfr, rebuildIndexes_dirty]; exact h.dirty
+  -- the sketch back-fill of `finalize_indexes` touches only the sketch track
+  exact (⟨⟨rfl, rfl, rfl, rfl⟩, rfl, rfl, rfl, rfl, id⟩ : Light (m.finalizeIndexes ft).1 (m.rebuildIndexes [] [] ft)).capnum hR
 
 /-- `recover_wal` when no payload is pending: the payload end does not move -/
 theorem recoverWal_cap (m0 : Mem) (ft : Nat) (w : Within m0.frames m0.payloadEnd) (hf : hasFresh m0.pending = false) :
@@ -456,59 +452,17 @@ def Scoped (m : Mem) : Op → Prop
 
 def ScopedRun (m : Mem) : List Op → Prop
   | [] => True
-  | op :: ops => Scoped m op ∧ ScopedRun (stepR m op).1 ops
+  | op :: ops => Scoped m op ∧ ScopedRun (step m op).1 ops
 
-/-- Core's invariant survives the repaired step -/
-theorem stepR_inv (m : Mem) (op : Op) (hi : Inv m) : Inv (stepR m op).1 := by
-  cases op with
-  | put a t =>
-    show Inv (m.putCoreR a none none t).1
-    simp only [Mem.putCoreR]
-    have hcore : Inv (m.putCore a none none t).1 := inv_step m (.put a t) hi
-    split
-    · exact hcore
-    · split
-      · exact (prePut_light m a).inv hi
-      · exact hcore
-  | update id u t =>
-    show Inv (m.updateR id u t).1
-    have hcore : Inv (m.update id u t).1 := inv_step m (.update id u t) hi
-    simp only [Mem.updateR]
-    by_cases hack : (m.update id u t).2.isAck = true
-    · simp only [hack, Bool.not_true, Bool.false_eq_true, if_false]
-      cases hfr : m.frames[id]? with
-      | none => exact hcore
-      | some old =>
-        simp only []
-        by_cases hov : m.loadVec.overCap (inheritArgs old u (m.carriedEmb id u.emb)) (updReuse u id) = true
-        · simp only [hov, if_true]
-          exact ((prePut_light _ _).trans (loadVec_light m)).inv hi
-        · simp only [hov]
-          exact hcore
-    · simp only [hack, Bool.not_false, if_true]
-      exact hcore
-  | create => exact inv_step m .create hi
-  | delete id t => exact inv_step m (.delete id t) hi
-  | commit ft => exact inv_step m (.commit ft) hi
-  | reopen a b => exact inv_step m (.reopen a b) hi
-  | crash ft => exact inv_step m (.crash ft) hi
-  | beginBatch d ws => exact inv_step m (.beginBatch d ws) hi
-  | endBatch => exact inv_step m .endBatch hi
-  | commitSkipIndexes => exact inv_step m .commitSkipIndexes hi
-  | finalizeIndexes ft => exact inv_step m (.finalizeIndexes ft) hi
-  | vacuum a b => exact inv_step m (.vacuum a b) hi
-  | doctor v rt rl rv a b c d => exact inv_step m (.doctor v rt rl rv a b c d) hi
-  | ticket s c b f => exact inv_step m (.ticket s c b f) hi
-
-/-- C24, one step: inside the scope every operation of the repaired handle keeps the payload region
-    (and what is pending for it) within the capacity limit -/
-theorem C24_step_partial (m : Mem) (op : Op) (h : CapInv m) (hs : Scoped m op) : CapInv (stepR m op).1 := by
-  refine ⟨stepR_inv m op h.core, ?_⟩
+/-- C24, one step: inside the scope every operation keeps the payload region (and what is pending
+    for it) within the capacity limit -/
+theorem C24_step_partial (m : Mem) (op : Op) (h : CapInv m) (hs : Scoped m op) : CapInv (step m op).1 := by
+  refine ⟨inv_step m op h.core, ?_⟩
   have hn := h.num
   cases op with
   | create => exact create_capnum
-  | put a t => exact putCoreR_capnum m a none none t hn hs
-  | update id u t => exact updateR_capnum m id u t hn hs
+  | put a t => exact putCore_capnum m a none none t hn hs
+  | update id u t => exact update_capnum m id u t hn hs
   | delete id t => exact delete_capnum m id t hn hs
   | commit ft => exact commit_capnum m ft hn
   | reopen a b =>
@@ -529,20 +483,20 @@ theorem C24_step_partial (m : Mem) (op : Op) (h : CapInv m) (hs : Scoped m op) :
   | doctor v rt rl rv a b c d => exact absurd hs id
   | ticket s c b f => exact applyTicket_capnum m s c b f hn hs
 
-theorem C24_run_partial (m : Mem) (ops : List Op) (h : CapInv m) (hs : ScopedRun m ops) : CapInv (runR m ops) := by
+theorem C24_run_partial (m : Mem) (ops : List Op) (h : CapInv m) (hs : ScopedRun m ops) : CapInv (run m ops) := by
   induction ops generalizing m with
   | nil => exact h
   | cons op ops ih => exact ih _ (C24_step_partial m op h hs.1) hs.2
 
-/-- C24 (partial): in every history of the repaired handle without WAL growth, without a crash while
-    payloads are pending, without vacuum / doctor and without a ticket that grants less than is in use,
-    the payload region never ends beyond the capacity limit — and the bytes pending in the WAL are
-    covered as well, so the next commit cannot exceed it either. -/
+/-- C24 (partial): in every history without WAL growth, without a crash while payloads are pending,
+    without vacuum / doctor and without a ticket that grants less than is in use, the payload region
+    never ends beyond the capacity limit — and the bytes pending in the WAL are covered as well, so the
+    next commit cannot exceed it either. -/
 theorem C24_capacity_never_exceeded_partial (ops : List Op) (hs : ScopedRun Mem.create ops) :
-    (runR Mem.create ops).absEnd ≤ (runR Mem.create ops).capacityLimit ∧
-    (hasFresh (runR Mem.create ops).pending = true →
-      (runR Mem.create ops).base + max (runR Mem.create ops).payloadEnd (runR Mem.create ops).dataEnd
-        + (runR Mem.create ops).pendingBytes ≤ (runR Mem.create ops).capacityLimit) :=
+    (run Mem.create ops).absEnd ≤ (run Mem.create ops).capacityLimit ∧
+    (hasFresh (run Mem.create ops).pending = true →
+      (run Mem.create ops).base + max (run Mem.create ops).payloadEnd (run Mem.create ops).dataEnd
+        + pendingPayloadBytes (run Mem.create ops).pending ≤ (run Mem.create ops).capacityLimit) :=
   let h := C24_run_partial Mem.create ops ⟨create_inv, create_capnum⟩ hs
   ⟨h.num.bound, h.num.pend⟩
 
@@ -551,42 +505,26 @@ theorem C24_capacity_never_exceeded_partial (ops : List Op) (hs : ScopedRun Mem.
 /-- a put / update answered with an error (CapacityExceeded included) leaves frames, pending records,
     WAL sequence, payload end, data end, WAL size and ticket as they were -/
 theorem C24_rejected_keeps_contents (m : Mem) (op : Op) (hop : (∃ a t, op = .put a t) ∨ (∃ id u t, op = .update id u t))
-    (hrej : (stepR m op).2.isAck = false) : Light (stepR m op).1 m := by
+    (hrej : (step m op).2.isAck = false) : Light (step m op).1 m := by
   rcases hop with ⟨a, t, rfl⟩ | ⟨id, u, t, rfl⟩
-  · have hrej' : (m.putCoreR a none none t).2.isAck = false := hrej
-    show Light (m.putCoreR a none none t).1 m
-    simp only [Mem.putCoreR] at hrej' ⊢
-    rcases putCore_shape m a none none t with ⟨hn, hl⟩ | ⟨hy, _⟩
-    · simp only [hn, Bool.not_false, if_true]; exact hl
-    · simp only [hy, Bool.not_true, Bool.false_eq_true, if_false] at hrej' ⊢
-      by_cases hov : m.overCap a none = true
-      · simp only [hov, if_true]
-        exact prePut_light m a
-      · have hov' : m.overCap a none = false := by simpa using hov
-        simp only [hov', Bool.false_eq_true, if_false, hy] at hrej'
-        cases hrej'
-  · have hrej' : (m.updateR id u t).2.isAck = false := hrej
-    show Light (m.updateR id u t).1 m
-    simp only [Mem.updateR] at hrej' ⊢
-    rcases update_shape m id u t with ⟨hn, hl⟩ | ⟨old, hold, hy, _⟩
-    · simp only [hn, Bool.not_false, if_true]; exact hl
-    · simp only [hy, Bool.not_true, Bool.false_eq_true, if_false, hold] at hrej' ⊢
-      by_cases hov : m.loadVec.overCap (inheritArgs old u (m.carriedEmb id u.emb)) (updReuse u id) = true
-      · simp only [hov, if_true]
-        exact (prePut_light _ _).trans (loadVec_light m)
-      · have hov' : m.loadVec.overCap (inheritArgs old u (m.carriedEmb id u.emb)) (updReuse u id) = false := by
-          simpa using hov
-        simp only [hov', Bool.false_eq_true, if_false, hy] at hrej'
-        cases hrej'
+  · have hrej' : (m.putCore a none none t).2.isAck = false := hrej
+    show Light (m.putCore a none none t).1 m
+    rcases putCore_shape m a none none t with ⟨_, hl⟩ | ⟨hy, _⟩
+    · exact hl
+    · rw [hy] at hrej'; cases hrej'
+  · have hrej' : (m.update id u t).2.isAck = false := hrej
+    show Light (m.update id u t).1 m
+    rcases update_shape m id u t with ⟨_, hl⟩ | ⟨_, _, hy, _⟩
+    · exact hl
+    · rw [hy] at hrej'; cases hrej'
 
 theorem putTail_capacity (m : Mem) (a : PutArgs) (sup reuse : Option Nat) (t : Trace)
     (h : (m.putTail a sup reuse t).2 = .err "capacity") : (m.putTail a sup reuse t).1 = m := by
-  unfold Mem.putTail at h ⊢
-  split
-  · rfl
-  · rename_i hc; simp only [hc, if_false] at h; cases h
+  rcases putTail_shape m a sup reuse t with ⟨_, h2⟩ | ⟨h1, _⟩
+  · exact h2
+  · rw [h] at h1; cases h1
 
-/-- `put_internal` of the current code answers CapacityExceeded only from the early test in `putTail` -/
+/-- `put_internal` of the current code answers CapacityExceeded only from the two tests in `putTail` -/
 theorem putCore_capacity (m : Mem) (a : PutArgs) (sup reuse : Option Nat) (t : Trace)
     (h : (m.putCore a sup reuse t).2 = .err "capacity") : (m.putCore a sup reuse t).1 = m.prePut a := by
   cases hd : embDims a with
@@ -616,25 +554,12 @@ theorem putCore_capacity (m : Mem) (a : PutArgs) (sup reuse : Option Nat) (t : T
 /-- a put answered CapacityExceeded leaves the handle as `put_internal` found it after the dimension
     contract: unchanged, except that a put carrying an embedding has already enabled the vector index -/
 theorem C24_rejected_put_is_prePut (m : Mem) (a : PutArgs) (t : Trace)
-    (h : (stepR m (.put a t)).2 = .err "capacity") : (stepR m (.put a t)).1 = m.prePut a := by
-  have h' : (m.putCoreR a none none t).2 = .err "capacity" := h
-  show (m.putCoreR a none none t).1 = m.prePut a
-  simp only [Mem.putCoreR] at h' ⊢
-  by_cases hack : (m.putCore a none none t).2.isAck = true
-  · simp only [hack, Bool.not_true, Bool.false_eq_true, if_false] at h' ⊢
-    by_cases hov : m.overCap a none = true
-    · simp only [hov, if_true]
-    · have hov' : m.overCap a none = false := by simpa using hov
-      simp only [hov', Bool.false_eq_true, if_false] at h'
-      rw [h'] at hack
-      cases hack
-  · have hack' : (m.putCore a none none t).2.isAck = false := by simpa using hack
-    simp only [hack', Bool.not_false, if_true] at h' ⊢
-    exact putCore_capacity m a none none t h'
+    (h : (step m (.put a t)).2 = .err "capacity") : (step m (.put a t)).1 = m.prePut a :=
+  putCore_capacity m a none none t h
 
 /-- C24, second clause: a put WITHOUT embeddings answered CapacityExceeded leaves the memory unchanged -/
 theorem C24_rejected_put_unchanged (m : Mem) (a : PutArgs) (t : Trace) (hemb : embDims a = [])
-    (h : (stepR m (.put a t)).2 = .err "capacity") : (stepR m (.put a t)).1 = m := by
+    (h : (step m (.put a t)).2 = .err "capacity") : (step m (.put a t)).1 = m := by
   rw [C24_rejected_put_is_prePut m a t h]
   unfold Mem.prePut
   rw [hemb]
@@ -651,25 +576,25 @@ def binPut (len : Nat) (tok : String) (ts : Int) (ws : Nat := 65536) : Op :=
 def witnessPending : List Op :=
   [.ticket 2 (DATA_START + 3000) false false, binPut 2000 "a" 100, binPut 2000 "b" 101, .commit 8424]
 
-/-- on the shared model of the CURRENT code both puts are accepted and the commit leaves 4000 payload
-    bytes under a 3000-byte grant -/
+/-- on the handle as it was BEFORE the repair ed05539 (`stepU`: only the early test against the committed
+    payload end) both puts are accepted and the commit leaves 4000 payload bytes under a 3000-byte grant -/
 theorem C24_unrepaired_counterexample :
-    (trace Mem.create witnessPending).map (·.2) = [.ok, .seq 1, .seq 2, .ok] ∧
-    (run Mem.create witnessPending).payloadEnd = 4000 ∧
-    (run Mem.create witnessPending).absEnd > (run Mem.create witnessPending).capacityLimit := by
+    (traceU Mem.create witnessPending).map (·.2) = [.ok, .seq 1, .seq 2, .ok] ∧
+    (runU Mem.create witnessPending).payloadEnd = 4000 ∧
+    (runU Mem.create witnessPending).absEnd > (runU Mem.create witnessPending).capacityLimit := by
   decide
 
 /-- with the repair the second put is rejected and the commit stays inside the grant (non-vacuity of
     the partial theorem: the history is in scope) -/
-example : (traceR Mem.create witnessPending).map (·.2) = [.ok, .seq 1, .err "capacity", .ok] ∧
-    (runR Mem.create witnessPending).payloadEnd = 2000 ∧
-    (runR Mem.create witnessPending).absEnd ≤ (runR Mem.create witnessPending).capacityLimit := by decide
+example : (trace Mem.create witnessPending).map (·.2) = [.ok, .seq 1, .err "capacity", .ok] ∧
+    (run Mem.create witnessPending).payloadEnd = 2000 ∧
+    (run Mem.create witnessPending).absEnd ≤ (run Mem.create witnessPending).capacityLimit := by decide
 
 /-- non-vacuity of the rejection theorems: the third operation of the witness IS answered
     CapacityExceeded by the repaired handle, carries no embedding, and leaves one record pending -/
-example : (stepR (runR Mem.create (witnessPending.take 2)) (binPut 2000 "b" 101)).2 = .err "capacity" ∧
+example : (step (run Mem.create (witnessPending.take 2)) (binPut 2000 "b" 101)).2 = .err "capacity" ∧
     embDims ({ ts := 101, content := "b", len := 2000, plen := 2000 } : PutArgs) = [] ∧
-    (runR Mem.create (witnessPending.take 2)).pendingBytes = 2000 := by decide
+    pendingPayloadBytes (run Mem.create (witnessPending.take 2)).pending = 2000 := by decide
 
 example : ScopedRun Mem.create witnessPending :=
   ⟨⟨by decide, by decide⟩, rfl, rfl, trivial, trivial⟩
@@ -679,9 +604,9 @@ example : ScopedRun Mem.create witnessPending :=
     update answered CapacityExceeded leaves the handle as it was -/
 def C24_full : Prop :=
   ∀ (ops : List Op) (op : Op),
-    ((stepR (runR Mem.create ops) op).1.absEnd ≤ (runR Mem.create ops).absEnd ∨
-     (stepR (runR Mem.create ops) op).1.absEnd ≤ (stepR (runR Mem.create ops) op).1.capacityLimit) ∧
-    ((stepR (runR Mem.create ops) op).2 = .err "capacity" → (stepR (runR Mem.create ops) op).1 = runR Mem.create ops)
+    ((step (run Mem.create ops) op).1.absEnd ≤ (run Mem.create ops).absEnd ∨
+     (step (run Mem.create ops) op).1.absEnd ≤ (step (run Mem.create ops) op).1.capacityLimit) ∧
+    ((step (run Mem.create ops) op).2 = .err "capacity" → (step (run Mem.create ops) op).1 = run Mem.create ops)
 
 /-- finding (not repaired): the WAL grows inside the put that was just admitted; everything behind the
     WAL moves by the growth and the commit lands beyond the limit -/
@@ -700,19 +625,19 @@ def witnessCrashReplay : List Op :=
   [binPut 1000 "a" 100, .commit 5076, .ticket 2 (DATA_START + 1100) false false, binPut 50 "b" 101]
 
 theorem C24_crash_replay_exceeds :
-    (traceR Mem.create witnessCrashReplay).map (·.2) = [.seq 1, .ok, .ok, .seq 3] ∧
-    (stepR (runR Mem.create witnessCrashReplay) (.crash 9462)).1.payloadEnd = 5126 ∧
-    (stepR (runR Mem.create witnessCrashReplay) (.crash 9462)).1.absEnd >
-      (stepR (runR Mem.create witnessCrashReplay) (.crash 9462)).1.capacityLimit := by
+    (trace Mem.create witnessCrashReplay).map (·.2) = [.seq 1, .ok, .ok, .seq 3] ∧
+    (step (run Mem.create witnessCrashReplay) (.crash 9462)).1.payloadEnd = 5126 ∧
+    (step (run Mem.create witnessCrashReplay) (.crash 9462)).1.absEnd >
+      (step (run Mem.create witnessCrashReplay) (.crash 9462)).1.capacityLimit := by
   decide
 
 /-- finding (not repaired): a put with an embedding answered CapacityExceeded has already enabled the
     vector index (`enable_vec` runs before the capacity tests) -/
 theorem C24_rejected_embedded_put_changes_handle :
-    let m := runR Mem.create [.ticket 2 (DATA_START + 100) false false]
+    let m := run Mem.create [.ticket 2 (DATA_START + 100) false false]
     let op : Op := .put { ts := 105, content := "a", len := 500, plen := 500, emb := some (3, "e") } {}
-    (stepR m op).2 = .err "capacity" ∧ m.vecEnabled = false ∧ (stepR m op).1.vecEnabled = true ∧
-    m.dirty = false ∧ (stepR m op).1.dirty = true := by
+    (step m op).2 = .err "capacity" ∧ m.vecEnabled = false ∧ (step m op).1.vecEnabled = true ∧
+    m.dirty = false ∧ (step m op).1.dirty = true := by
   decide
 
 end Mv.Core
